@@ -524,7 +524,7 @@ def main(tier, seed):
     try:
         translate()
         run.obligation("translate:tools.systematic_resample+Resampler.run", True)
-    except TranslateError as e:
+    except Exception as e:  # fail closed: anything the translator cannot digest
         run.obligation("translate:tools.systematic_resample+Resampler.run", False, str(e))
     run.prove("Props/C06.v", link_rels=["Link/Resample.v"])
     try:
